@@ -819,7 +819,8 @@ class Image:
             raise ValueError
 
         result_image = self.copy()
-        result_image.img *= scalar
+        # NOTE: Not in-place, such that the data type is promoted as for plain arrays.
+        result_image.img = result_image.img * scalar
         return result_image
 
     __rmul__ = __mul__
